@@ -33,6 +33,15 @@ func genCandidate(r vlib.Rnd) *vlib.Project {
 			return genModelDoc(r)
 		}
 		fallthrough
+	case 5:
+		return vlib.SingleFile(genTagSoup(r))
+	case 6:
+		// a synthetic seed as it is or lightly mutated (shapes the repo's fixtures do not contain)
+		s := []byte(vlib.Pick(r, allSynthSeeds()))
+		if vlib.Chance(r, 1, 2) {
+			return vlib.SingleFile(s)
+		}
+		return vlib.SingleFile(vlib.Mutate(r, seedSmall, s, 4000))
 	default:
 		in := vlib.Pick(r, seedDocs)
 		return vlib.SingleFile(vlib.Mutate(r, seedSmall, in, 4000))
@@ -143,15 +152,29 @@ var c04Corpus = &vlib.Check{Prop: "C04", Name: "corpus", Oracle: c04Oracle, Clas
 
 func init() { vlib.Register(c04Stream, c04Corpus, c05Stream, c05Corpus) }
 
+func allSynthSeeds() []string {
+	var out []string
+	out = append(out, synthSeeds...)
+	out = append(out, oasSeeds...)
+	out = append(out, c16Seeds...)
+	return out
+}
+
+// corpusEnum enumerates the repo's testdata and the harness's own synthetic seeds.
 func corpusEnum() func() *vlib.Case {
 	i := 0
 	cc := vlib.Corpus()
+	extra := allSynthSeeds()
 	return func() *vlib.Case {
-		if i >= len(cc) {
-			return nil
+		if i < len(cc) {
+			i++
+			return &vlib.Case{Project: cc[i-1].Project, Note: cc[i-1].Path}
 		}
-		i++
-		return &vlib.Case{Project: cc[i-1].Project, Note: cc[i-1].Path}
+		if j := i - len(cc); j < len(extra) {
+			i++
+			return &vlib.Case{Project: vlib.SingleFile([]byte(extra[j])), Note: "synthetic seed"}
+		}
+		return nil
 	}
 }
 
